@@ -58,6 +58,7 @@ type connCall struct {
 	cancelled bool
 	results   []string
 	foreign   []string // rows of cells that are not this call's row
+	msgs      []proto.Message
 }
 
 type wireInfo struct {
@@ -87,6 +88,7 @@ type connScn struct {
 	regs     []hrpc.RegionInfo
 	broken   string
 	inQueue  int32 // QueueRPC calls that have not returned yet
+	profile  string
 }
 
 var discardLogger = slog.New(slog.NewTextHandler(io.Discard, nil))
@@ -241,7 +243,7 @@ func (s *connScn) buildFrame(w *wireInfo, kind string) ([]byte, string) {
 		return frameBytes(h, nil, nil), "exc-" + kind
 	}
 	// a result
-	useCB := s.rng.Bool()
+	useCB := s.rng.Bool() || s.profile == "corr"
 	if w.method != "Multi" {
 		row := []byte(nil)
 		if len(w.calls) == 1 {
@@ -296,7 +298,7 @@ func (s *connScn) buildFrame(w *wireInfo, kind string) ([]byte, string) {
 			}
 			if k == "ok" {
 				row := s.calls[w.calls[p]].row
-				if s.rng.Bool() {
+				if s.rng.Bool() || s.profile == "corr" {
 					n := int32(1)
 					roe.Result = &pb.Result{AssociatedCellCount: &n}
 					cb = append(cb, cellblockFor(row)...)
@@ -321,6 +323,14 @@ func (s *connScn) buildFrame(w *wireInfo, kind string) ([]byte, string) {
 		d = "pc-none"
 	}
 	return frameBytes(h, mr, cb), d
+}
+
+// unsendableCall is a direct (not batchable) call whose request cannot be marshalled: its
+// GetRequest lacks the required `get` field.
+type unsendableCall struct{ *hrpc.Get }
+
+func (u unsendableCall) ToProto() proto.Message {
+	return &pb.GetRequest{Region: &pb.RegionSpecifier{Type: pb.RegionSpecifier_REGION_NAME.Enum(), Value: []byte("r")}}
 }
 
 func (s *connScn) newCall(direct, app bool) *connCall {
@@ -353,6 +363,7 @@ func (s *connScn) observe() string {
 			case r := <-c.call.ResultChan():
 				c.results = append(c.results, errClass(r.Error))
 				if r.Error == nil {
+					c.msgs = append(c.msgs, r.Msg)
 					var res *pb.Result
 					switch m := r.Msg.(type) {
 					case *pb.GetResponse:
@@ -411,6 +422,7 @@ func (s *connScn) log(act string) {
 // run performs up to nSteps randomly chosen events, then drains.
 // profile: "fail" (C03), "idle" (C18), "corr" (C02).
 func (s *connScn) run(nSteps, maxCalls int, profile string) {
+	s.profile = profile
 	for step := 0; step < nSteps && s.broken == ""; step++ {
 		pend := s.v.Pending()
 		type opt struct {
@@ -423,6 +435,10 @@ func (s *connScn) run(nSteps, maxCalls int, profile string) {
 				direct := s.q <= 1 || s.rng.Intn(3) == 0
 				app := direct && s.rng.Intn(3) == 0
 				c := s.newCall(direct, app)
+				unsendable := direct && !app && s.rng.Intn(7) == 0
+				if unsendable {
+					c.call = unsendableCall{c.call.(*hrpc.Get)}
+				}
 				// a call may be handed over with its context already done (direct calls only: the
 				// select in QueueBatch would be a coin toss)
 				pre := ""
@@ -439,6 +455,9 @@ func (s *connScn) run(nSteps, maxCalls int, profile string) {
 				kind := "qb"
 				if direct {
 					kind = "qd"
+				}
+				if unsendable {
+					kind = "qu"
 				}
 				if pre != "" {
 					s.steps = append(s.steps, strings.TrimSpace(pre))
@@ -686,8 +705,33 @@ func (s *connScn) debugStranded() {
 	}
 }
 
+// recheck looks again at every successful result received during the run: it must still carry
+// the caller's own row (a result that aliases a recycled read buffer changes under the caller).
+func (s *connScn) recheck() {
+	for _, c := range s.calls {
+		for _, m := range c.msgs {
+			var res *pb.Result
+			switch x := m.(type) {
+			case *pb.GetResponse:
+				res = x.GetResult()
+			case *pb.MutateResponse:
+				res = x.GetResult()
+			}
+			if res == nil || len(res.GetCell()) != 1 || !bytes.Equal(res.GetCell()[0].GetRow(), c.row) ||
+				!bytes.Equal(res.GetCell()[0].GetValue(), append([]byte("v-"), c.row...)) {
+				f := "none"
+				if res != nil && len(res.GetCell()) > 0 {
+					f = fmt.Sprintf("late:%s*%d", res.GetCell()[0].GetRow(), len(res.GetCell()))
+				}
+				c.foreign = append(c.foreign, f)
+			}
+		}
+	}
+}
+
 func (s *connScn) line(model string) string {
 	s.debugStranded()
+	s.recheck()
 	var cx, handed []string
 	for _, c := range s.calls {
 		handed = append(handed, fmt.Sprint(c.idx))
@@ -755,8 +799,14 @@ func runSharded(prop, tier string, seed uint64, out *Out, nShards int, worker fu
 func connProp(model, profile string) propFn {
 	return func(tier string, seed uint64, out *Out) {
 		n := 400
+		if profile == "corr" {
+			n = 1600
+		}
 		if tier != "quick" {
 			n = 6000
+			if profile == "corr" {
+				n = 16000
+			}
 		}
 		prop := strings.ToUpper(model)
 		runSharded(prop, tier, seed, out, 16, func(shard, nsh int, emit func(string)) {
